@@ -5,7 +5,9 @@
 //! `tlv`:      `msg <new|sorted|slice> <cow|str|ref|h> <tag:kind:payload,...|->`
 //!             (kinds: b/o = borrowed/owned bytes, m = message in slot <payload>, v = MessageView of that slot's encoding,
 //!              f = value whose rough_tlv_len reports <payload>, never encoded)
-//!             `enc <slot> <iov|hcobs>`
+//!             `enc <slot> <iov|hcobs>`  (answers `calls <b|c><len>,...`: every `ZeroCopySink` call `encode` made on the
+//!              sink, in order, method + length, recorded by a pass-through sink wrapper; sink `hcobs` also `wire <hex>`,
+//!              the bytes the real `hcobs::Encoder` sink holds after `finish`)
 use crate::util::*;
 use owning_iovec::{OwningIovec, ZeroCopySink};
 use rough_tlv::{DecodingError, EncodingError, MessageView, MessageWrapper, Tag, ToRoughTLV};
@@ -444,7 +446,21 @@ impl Family for TlvViewFamily {
             }
             frontier = next;
         }
-        ops.chunks(256).map(|c| c.to_vec()).collect()
+        let mut cases: Vec<Vec<String>> = ops.chunks(256).map(|c| c.to_vec()).collect();
+        // (c) pair counts beyond one byte (256 +- 1, and 300 in thorough): a well-formed message, the same with its
+        // last offset one past the payload, and with one byte cut off (thresholds that depend on a large N)
+        let mut rng = Rng::new(0xC12_B16);
+        for n in if thorough { vec![255usize, 256, 257, 300] } else { vec![255usize, 256, 257] } {
+            let d = gen_valid(&mut rng, n);
+            let mut over = d.clone();
+            let payload = (d.len() - 8 * n) as u32;
+            put32(&mut over, n - 1, payload + 1);
+            let cut = d[..d.len() - 1].to_vec();
+            // few lookups: the observation is quadratic in N already
+            let lk = |x: &[u8]| format!("view {} {},{},0,4294967295", to_hex(x), rd32(x, n), rd32(x, 2 * n - 1));
+            cases.push(vec![lk(&d), lk(&over), lk(&cut)]);
+        }
+        cases
     }
 
     fn gen_case(&self, rng: &mut Rng, _idx: u64, _thorough: bool) -> Vec<String> {
@@ -748,6 +764,44 @@ fn stable_by_tag<T: Clone>(items: &[(u32, T)]) -> Vec<(u32, T)> {
     out
 }
 
+/// A pass-through `ZeroCopySink` that records every call made on it (method, length) and the bytes
+/// it was handed, then forwards the call unchanged to the real sink.
+struct RecSink<'a, S: ZeroCopySink<'a>> {
+    inner: S,
+    calls: Vec<(char, usize)>,
+    handed: Vec<u8>,
+    /// every `append_borrow` argument as (address, length): zero-copy means the caller's own buffer
+    borrowed: Vec<(usize, usize)>,
+    _life: std::marker::PhantomData<&'a [u8]>,
+}
+
+impl<'a, S: ZeroCopySink<'a>> RecSink<'a, S> {
+    fn new(inner: S) -> Self {
+        RecSink { inner, calls: Vec::new(), handed: Vec::new(), borrowed: Vec::new(), _life: Default::default() }
+    }
+    fn calls_str(&self) -> String {
+        if self.calls.is_empty() {
+            "-".to_string()
+        } else {
+            self.calls.iter().map(|(k, n)| format!("{}{}", k, n)).collect::<Vec<_>>().join(",")
+        }
+    }
+}
+
+impl<'a, S: ZeroCopySink<'a>> ZeroCopySink<'a> for RecSink<'a, S> {
+    fn append_copy(&mut self, bytes: &[u8]) {
+        self.calls.push(('c', bytes.len()));
+        self.handed.extend_from_slice(bytes);
+        self.inner.append_copy(bytes)
+    }
+    fn append_borrow(&mut self, bytes: &'a [u8]) {
+        self.calls.push(('b', bytes.len()));
+        self.handed.extend_from_slice(bytes);
+        self.borrowed.push((bytes.as_ptr() as usize, bytes.len()));
+        self.inner.append_borrow(bytes)
+    }
+}
+
 pub struct TlvFamily;
 
 struct TlvExec {
@@ -910,12 +964,15 @@ impl TlvExec {
         let Some(reference) = s.reference.clone() else { return StepOut::bad() };
         let mut so = StepOut::default();
         let bad = |so: &mut StepOut, s: String| so.violations.push(format!("C11 {}", s));
-        let out: Vec<u8> = match sink {
+        let mut wire_line: Option<String> = None;
+        let (out, calls, handed, borrowed): (Vec<u8>, String, Vec<u8>, Vec<(usize, usize)>) = match sink {
             "iov" => {
-                let mut iov: OwningIovec<'static> = OwningIovec::new();
-                s.msg.write(&mut iov);
+                let mut rec: RecSink<'static, OwningIovec<'static>> = RecSink::new(OwningIovec::new());
+                s.msg.write(&mut rec);
+                let calls = rec.calls_str();
+                let RecSink { inner: iov, handed, borrowed, .. } = rec;
                 match iov.flatten() {
-                    Ok(v) => v,
+                    Ok(v) => (v, calls, handed, borrowed),
                     Err(_) => {
                         bad(&mut so, "the iovec has pending backreferences after to_rough_tlv".into());
                         return so;
@@ -923,8 +980,10 @@ impl TlvExec {
                 }
             }
             "hcobs" => {
-                let mut enc: hcobs::Encoder<'static> = hcobs::Encoder::new();
-                s.msg.write(&mut enc);
+                let mut rec: RecSink<'static, hcobs::Encoder<'static>> = RecSink::new(hcobs::Encoder::new());
+                s.msg.write(&mut rec);
+                let calls = rec.calls_str();
+                let RecSink { inner: enc, handed, borrowed, .. } = rec;
                 let wire = match enc.finish().flatten() {
                     Ok(v) => v,
                     Err(_) => {
@@ -932,9 +991,19 @@ impl TlvExec {
                         return so;
                     }
                 };
+                wire_line = Some(format!("wire {}", to_hex(&wire)));
+                // sink agnostic, on the real code: the wire bytes are the one-call encoding of the layout
+                let mut one: hcobs::Encoder<'_> = hcobs::Encoder::new();
+                one.encode_copy(&reference);
+                if one.finish().flatten().ok().as_deref() != Some(&wire[..]) {
+                    bad(&mut so, "the HCOBS sink's output differs from the HCOBS encoding of the layout in one call".into());
+                }
+                if wire.windows(2).any(|w| w == [0xFE, 0xFD]) {
+                    bad(&mut so, "the HCOBS sink's output contains the stuff sequence".into());
+                }
                 let mut dec = hcobs::Decoder::new();
                 match dec.decode_copy(&wire).and_then(|_| dec.finish()) {
-                    Ok(iov) => iov.flatten().unwrap_or_else(|e| e),
+                    Ok(iov) => (iov.flatten().unwrap_or_else(|e| e), calls, handed, borrowed),
                     Err(_) => {
                         bad(&mut so, "the real HCOBS decoder rejects what the encoder sink produced".into());
                         return so;
@@ -944,6 +1013,25 @@ impl TlvExec {
             _ => return StepOut::bad(),
         };
         so.tags.push(format!("enc_{}", sink));
+        so.tags.push(format!("enc_borrows_{}", borrowed.len().min(3)));
+        // ---- at the sink interface (any ZeroCopySink): what `encode` hands over, call by call, IS the layout
+        if handed != reference {
+            bad(&mut so, format!("the bytes handed to the sink differ from the Roughtime layout: got {} want {}", to_hex(&handed), to_hex(&reference)));
+        }
+        if handed.len() != s.msg.tlv_len() {
+            bad(&mut so, format!("{} bytes were handed to the sink but rough_tlv_len() = {}", handed.len(), s.msg.tlv_len()));
+        }
+        // a borrowed value is handed over in place: the slice lies inside one of the buffers the harness lent
+        for (addr, len) in &borrowed {
+            let inside = *len == 0
+                || self.bufs.iter().any(|b| {
+                    let lo = b.as_ptr() as usize;
+                    lo <= *addr && addr + len <= lo + b.len()
+                });
+            if !inside {
+                bad(&mut so, format!("append_borrow was handed {} bytes that are not inside a caller-owned buffer", len));
+            }
+        }
         // ---- layout and length
         if out != reference {
             bad(&mut so, format!("emitted bytes differ from the Roughtime layout: got {} want {}", to_hex(&out), to_hex(&reference)));
@@ -972,6 +1060,8 @@ impl TlvExec {
             so.violations.extend(v);
             return so;
         }
+        so.obs.push(format!("calls {}", calls));
+        so.obs.extend(wire_line);
         so.obs.push(format!("bytes {}", to_hex(&out)));
         so.obs.extend(o);
         so.violations.extend(v.into_iter().map(|x| x.replacen("C12", "C11 view:", 1)));
